@@ -1205,7 +1205,11 @@ class Evaluator:
             key = (r[1].name, name)
             if key not in self._const_cache:
                 self._const_cache[key] = Sym("global", (name,))
-                self._const_cache[key] = self.eval_in_module(r[2], r[1])
+                if isinstance(r[2], ast.Call) and isinstance(r[2].func, ast.Name) and r[2].func.id == "object" and not r[2].args and not r[2].keywords:
+                    # a module-level sentinel: one object, identical to itself and to nothing else
+                    self._const_cache[key] = Sym("sentinel", (r[1].name, name))
+                else:
+                    self._const_cache[key] = self.eval_in_module(r[2], r[1])
             return self._const_cache[key]
         if r[0] == "module":
             return Sym("module", (r[1].name,))
@@ -1482,6 +1486,13 @@ class Evaluator:
                     return Const((ka in keys) == (name == "in"))
                 except TypeError:
                     pass
+        # a module-level sentinel (`_UNSET = object()`) is identical to itself and to no other value
+        if name in ("is", "is not") and any(isinstance(x, Sym) and x.kind == "sentinel" for x in (a, b)):
+            if isinstance(a, Sym) and isinstance(b, Sym) and a.kind == b.kind == "sentinel":
+                return Const((a.args == b.args) == (name == "is"))
+            other = b if isinstance(a, Sym) and a.kind == "sentinel" else a
+            if not (isinstance(other, Sym) and other.kind in ("getattr-default", "global")) and not isinstance(other, Phi):
+                return Const(name == "is not")
         # object vs None
         if name in ("is", "is not") and isinstance(b, Const) and b.value is None and self._is_plain_value(a):
             return Const(name == "is not")
@@ -1503,7 +1514,7 @@ class Evaluator:
                 if b.value is False:
                     r = negate(r)
                 return r if name == "is" else negate(r)
-        if name in ("is", "is not") and isinstance(b, Const) and b.value is None and isinstance(a, (Obj, Str, ListV, EnumV, ClassRef, CtxV)):
+        if name in ("is", "is not") and isinstance(b, Const) and b.value is None and isinstance(a, (Obj, Str, ListV, EnumV, ClassRef, CtxV, LambdaV, FuncRef, LocalFuncV, PartialV, DictV)):
             if isinstance(a, CtxV) and a.maybe_none:
                 r = Sym("ctx-present", ())
                 return r if name == "is not" else negate(r)
@@ -1949,6 +1960,8 @@ class Evaluator:
             return Sym("op", ("hasattr", a0, args[1]))
         if name == "getattr" and len(args) >= 2 and isinstance(args[1], Const):
             nm = args[1].value
+            if isinstance(a0, Obj) and len(args) == 3 and nm in getattr(a0, "absent", ()):
+                return args[2]
             if isinstance(a0, Obj):
                 known = nm in a0.attrs or a0.cls.resolve(nm) is not None or a0.cls.class_attr(nm) is not None or self.p.attr_kinds(a0.cls).get(nm)
                 if not known and len(args) == 3 and not a0.cls.resolve("__getattr__"):
